@@ -84,10 +84,46 @@ pub fn run_case(case: &J, workdir: &str, out: &mut dyn Write, n: usize) {
     };
     let empty = vec![];
     let steps = case["steps"].as_array().unwrap_or(&empty);
+    // conflict notices every session received and has not answered yet (C13)
+    let mut notices: std::collections::BTreeMap<String, Vec<String>> = std::collections::BTreeMap::new();
     for (i, st) in steps.iter().enumerate() {
         let mut ev = json!({"run": id, "i": i});
         if let Some(op) = st.get("op") {
             ev["op"] = op.clone();
+        }
+        if let Some(nth) = st.get("resolve_nth").and_then(|x| x.as_u64()) {
+            // the arbiter answers its nth outstanding notice, echoing op id, database, key, version
+            let c = st["c"].as_str().unwrap_or("arb");
+            let value = st["value"].as_str().unwrap_or("rv");
+            let list = notices.entry(c.to_string()).or_insert(vec![]);
+            ev["ev"] = json!("cmd");
+            ev["c"] = json!(c);
+            if (nth as usize) < list.len() {
+                let n = list.remove(nth as usize);
+                let t: Vec<&str> = n.trim().splitn(7, ' ').collect();
+                let line = format!("resolve {} {} {} {} {}", t[1], t[2], t[4], t[3], value);
+                ev["op"] = json!({"op":"resolve","opid":t[1].parse::<u64>().unwrap_or(0),"d":t[2],"k":t[4],
+                                  "ver":t[3].parse::<i64>().unwrap_or(-1),"v":value,"notice":n.trim()});
+                ev["line"] = json!(line);
+                ev["r"] = node.exec(c, &line);
+            } else {
+                ev["op"] = json!({"op":"noop"});
+                ev["line"] = json!("<no outstanding notice>");
+                ev["r"] = json!({"cls":"ok"});
+            }
+            let inbox = node.drain_all();
+            for (c2, lines) in inbox.iter() {
+                for l in lines.as_array().unwrap_or(&vec![]) {
+                    if l.as_str().unwrap_or("").starts_with("resolve ") {
+                        notices.entry(c2.clone()).or_insert(vec![]).push(l.as_str().unwrap().to_string());
+                    }
+                }
+            }
+            ev["inbox"] = J::Object(inbox);
+            ev["side"] = node.side_state();
+            ev["dump"] = node.dump();
+            writeln!(out, "{}", ev).unwrap();
+            continue;
         }
         if let Some(line) = st.get("line").and_then(|l| l.as_str()) {
             let c = st["c"].as_str().unwrap_or("c1");
@@ -187,7 +223,18 @@ pub fn run_case(case: &J, workdir: &str, out: &mut dyn Write, n: usize) {
         } else {
             ev["ev"] = json!("noop");
         }
-        ev["inbox"] = J::Object(node.drain_all());
+        let inbox = node.drain_all();
+        for (c2, lines) in inbox.iter() {
+            for l in lines.as_array().unwrap_or(&vec![]) {
+                if l.as_str().unwrap_or("").starts_with("resolve ") {
+                    notices.entry(c2.clone()).or_insert(vec![]).push(l.as_str().unwrap().to_string());
+                }
+            }
+        }
+        if let Some(c) = st.get("close").and_then(|c| c.as_str()) {
+            notices.remove(c);
+        }
+        ev["inbox"] = J::Object(inbox);
         ev["side"] = node.side_state();
         if dump_every || st.get("dump").is_some() {
             ev["dump"] = node.dump();
